@@ -20,6 +20,11 @@ CLAIMED = {
                 "emitted IF / LOOP-EXITIF forms for every valuation of the conditions (0..3 ELSE IF arms), line and statement sequencing through convert() on "
                 "injected ASTs with opaque statements, for all option combinations.",
                 level_note=_TX_NOTE, technique="contract-based verification: class and pass contracts checked by executing the real code on opaque parts; structured-semantics evaluation of emitted templates"),
+    "C03": dict(level_text="Per-function facts the property rests on: DIM bound+1 / prefix / sizes / fill loops covering 0..bound (class contract), `base 0` in the "
+                "prologue, initialisation coverage of the variable pass, DATA item forms and order (real grammar rule + visitor), the empty-item flag accumulating over "
+                "all DATA statements, the READ patcher (temporaries + filter, in target order), PRINT list reconstruction (11 list shapes), INPUT prompts, the "
+                "string-function spelling table. Run-time meaning of BASIC09's READ/PRINT/INPUT is not modelled.",
+                level_note=_TX_NOTE, technique="contract-based verification: class and pass contracts checked by executing the real code on opaque parts"),
     "C04": dict(level_text="For every device statement form and every presence pattern of its optional operands (85 rows written from the Color BASIC syntax and "
                 "the library's parameter names): the real grammar rule parses the form, the real visitor is run with opaque operands, and the emitted call "
                 "puts each operand in the position the real ecb.b09 PARAM lines give to the parameter of that name, defaults elsewhere; packed and "
@@ -45,6 +50,24 @@ CLAIMED = {
                 "position incl. implicit and source DIMs, generated identifiers disjoint from user identifiers (scan of every BasicVar(<constant>) site), "
                 "identifier-capable terminals of the grammar are exactly var/str_var plus content terminals.",
                 level_note=_TX_NOTE, technique="contract-based verification: naming contracts on the real visitors and classes; finite enumeration of the name space (bounded part labelled)"),
+    "C10": dict(level_text="Class contract of BasicDimStatement (bound+1, sizes per name / default, each name once), step contracts of SetDimStringStorage / "
+                "GetDimmedArrays / DeclareImplicitArrays / StrVarAllocator, and Used$ <= Sized$ plus single declaration checked on convert() output for a "
+                "string or array in each of 16 syntactic positions x {32, 80} x initialize_vars.",
+                level_note=_TX_NOTE, technique="contract-based verification: class and pass step contracts; per-position obligations through the real convert()"),
+    "C11": dict(level_text="Option footprints on an injected AST (opaque statements + one construct per option-sensitive aspect): for each option the on/off "
+                "difference is confined to its documented region for every one of the 16 settings of the other options; command line: 7 file stems x 16 flag sets x 3 "
+                "through the real start() with convert_file captured; convert_file's LF->CR.",
+                level_note=_TX_NOTE, technique="contract-based verification: frame (footprint) obligations of convert() checked on injected ASTs for all option combinations"),
+    "C12": dict(level_text="Order-determinacy typing over coco/b09 (every iteration over a set-typed expression is under sorted() without a key or at a justified "
+                "order-free site), no-persistent-state frame (no memoisation, globals, mutated module containers, class-attribute writes, mutable defaults), decoders "
+                "without hidden inputs; bounded confirmations (6 hash seeds; A,B,A) listed separately.",
+                level_note=_TX_NOTE + " Assumes the only seed-dependent behaviour of CPython visible to the code is set iteration order.",
+                technique="contract-based verification: static typing/frame obligations over the real source (ast), plus labelled bounded confirmations"),
+    "C13": dict(level_text="Closure/order/multiplicity of the real ProcedureBank for every root of the real library at two string sizes, every RUN of every bundle "
+                "resolved, all placeholders replaced (counted), user literals unchanged and edge-free; bounded: all sampled 4-node call graphs, the three regular "
+                "expressions against their contracts on all short strings.",
+                level_note=_TX_NOTE + " `re` is trusted beyond the bounded validation.",
+                technique="contract-based verification of ProcedureBank against closure/substitution contracts; regex contracts bounded-exhaustive (labelled)"),
     "C14": dict(level_text="Every RUN site: names found mechanically in coco/b09/*.py exist in ecb.b09 (or are OS-9 modules); for every statement/function form "
                 "the arguments the real code builds match arity and string/numeric/record kind of the PARAM lines; every RUN inside the library against its "
                 "callee; display_t/play_t of the prologue field-for-field against all library procedures; rule kinds (string rules build string-kinded constructs).",
@@ -54,6 +77,12 @@ CLAIMED = {
                 "statement forms: only documented refusals. Exceptions outside the documented set are violations unless in a recorded input class.",
                 level_note=_TX_NOTE + " parsimonious' matcher is trusted to terminate and to raise only ParseError.",
                 technique="contract-based verification: arity/key/conversion obligations over the real grammar and visitor; bounded mutation stand-in labelled"),
+    "C20": dict(level_text="The call sites bind operands to the helpers' parameters by name (proved against the real PARAM lines). The helper bodies themselves "
+                "are checked only by a BOUNDED stand-in: a concrete evaluator of the BASIC09 subset runs the real ecb.b09 text exhaustively over small domains "
+                "(INSTR: subjects<=5, patterns<=3 over 2 letters, start 1..7; STRING$: counts -2..255 at capacities 32 and 255; read filter: numeral spellings). "
+                "No BASIC09 interpreter or verifier exists in the sandbox.",
+                level_note="Trusted: the BASIC09 semantics stated in tx/b09mini.py (FOR/WHILE, MID$, string capacity, VAL); Python float() as the model of VAL.",
+                technique="contract check of call sites + bounded exhaustive evaluation of the real BASIC09 text (labelled bounded, not counted as proved)"),
     "C16": dict(level_text="Deductive proof, for all inputs and all loop iterations, that the real decoder functions (read from /repo on every run) "
                 "write exactly header + every pixel of a well-formed uncompressed file: per-function contracts, loop invariants over the "
                 "output array, callee contracts for getbit/pack/iotostr/strtoio/dump; obligations discharged by z3 (goal-directed instantiation, "
